@@ -697,3 +697,149 @@ Theorem C17_realloc_failure_balanced : forall w M : Z, 0 < w -> 8 <= M ->
   Own (tblks a ++ F) m -> TargInv M a -> is_ref a = false -> 0 <= n -> OQ M F Q -> safe (set_bit_fail w M a n) m Q.
 Proof. exact wp_set_bit_fail. Qed.
 Print Assumptions C17_realloc_failure_balanced.
+
+(** ================= round 5: the parser of texts of ANY length in a radix that is not a power of two (parse/non_power_two.rs:
+    parse_word / parse_chunk / parse_large / parse_large_divide_conquer), model in Int/StorageOps5.v over the REGENERATED tests,
+    lengths and exponents of coq/gen/StorageGen5.v.  [digits_ok radix bs]: every byte of the text (underscores removed) that is a
+    digit is a digit of the radix ([None] = any other byte).  Every word size w >= 2, every MAX_CAPACITY >= 8, every radix >= 2 and
+    digits_per_word >= 1 with radix^digits_per_word < 2^w, every text shorter than 2^(w-1) bytes (isize::MAX). *)
+From Dashu Require Import Int.StorageOps5 Int.StorageOps5Proofs Int.StorageOps5Examples.
+From DashuGen Require Import StorageGen5.
+
+(** parse_word: no checked word operation overflows (word * radix + digit < 2^w), the length assertion holds *)
+Theorem C17_parse_word_no_overflow : forall w radix dpw : Z, 2 <= radix -> 1 <= dpw -> radix ^ dpw < Bw w ->
+  forall (bs : list (option Z)) (m : mem), digits_ok radix bs -> len bs <= dpw ->
+  safe (parse_word5 w radix dpw bs) m (fun _ m' => m' = m).
+Proof. exact parse_word5_safe. Qed.
+Print Assumptions C17_parse_word_no_overflow.
+
+(** parse_chunk at byte level: rchunks(digits_per_word) groups of at most digits_per_word bytes, Buffer::allocate(groups.len()) holds
+    every carry; the error exit drops the buffer *)
+Theorem C17_parse_chunk_bytes : forall w M : Z, 8 <= M -> forall radix dpw : Z, 2 <= radix -> 1 <= dpw -> radix ^ dpw < Bw w ->
+  forall (rpw : Z) (bs : list (option Z)) (F : list (Z * Z)) (m : mem) (Q : option repr -> mem -> Prop),
+  Own F m -> digits_ok radix bs -> len bs <= gen5_parse_chunk_len * dpw -> OptQ M F Q -> safe (parse_chunk5 w M radix dpw rpw bs) m Q.
+Proof. exact wp_parse_chunk5. Qed.
+Print Assumptions C17_parse_chunk_bytes.
+
+(** parse_large_divide_conquer over ANY vector of radix powers (only read): the debug_assert `len <= chunk_bytes << powers` holds at
+    every node (no wrap of the shift), split_at is inside the slice, every leaf meets parse_chunk's length bound, the partial
+    results are consumed by `hi * power + lo` or dropped by the `?` exits: exactly the result is left *)
+Theorem C17_parse_divide_conquer : forall w M : Z, 2 <= w -> 8 <= M -> forall radix dpw : Z, 2 <= radix -> 1 <= dpw -> radix ^ dpw < Bw w ->
+  forall (rpw cb : Z) (powers : list repr) (bs : list (option Z)) (F : list (Z * Z)) (m : mem) (Q : option repr -> mem -> Prop),
+  cb = gen5_chunk_bytes dpw -> Forall (ReprInv M) powers -> len powers < w -> cb * 2 ^ len powers < Bw w ->
+  digits_ok radix bs -> len bs <= cb * 2 ^ len powers ->
+  Own F m -> OptQ M F Q -> safe (parse_dc w M radix dpw rpw cb powers bs) m Q.
+Proof. exact wp_parse_dc. Qed.
+Print Assumptions C17_parse_divide_conquer.
+
+(** parse_large: `bytes.len() - 1` does not underflow, the shift amounts stay below usize::BITS, the loop `while chunk_bytes <=
+    (len - 1) >> powers.len()` ends within w iterations (fuel) with len <= chunk_bytes << powers.len() < 2^w, every power
+    (range_per_word^256 and its squares) is freed exactly once at the end - also when the text is invalid *)
+Theorem C17_parse_large : forall w M : Z, 2 <= w -> 8 <= M -> forall radix dpw : Z, 2 <= radix -> 1 <= dpw -> radix ^ dpw < Bw w ->
+  forall (rpw : Z) (bs : list (option Z)) (F : list (Z * Z)) (m : mem) (Q : option repr -> mem -> Prop),
+  Own F m -> digits_ok radix bs -> gen5_chunk_bytes dpw < len bs < 2 ^ (w - 1) -> OptQ M F Q ->
+  safe (parse_large5 w M radix dpw rpw bs) m Q.
+Proof. exact wp_parse_large5. Qed.
+Print Assumptions C17_parse_large.
+
+(** non_power_two::parse, all three routes *)
+Theorem C17_parse_any_length : forall w M : Z, 2 <= w -> 8 <= M -> forall radix dpw : Z, 2 <= radix -> 1 <= dpw -> radix ^ dpw < Bw w ->
+  forall (rpw : Z) (bs : list (option Z)) (F : list (Z * Z)) (m : mem) (Q : option repr -> mem -> Prop),
+  Own F m -> digits_ok radix bs -> len bs < 2 ^ (w - 1) -> OptQ M F Q -> safe (parse5 w M radix dpw rpw bs) m Q.
+Proof. exact wp_parse5. Qed.
+Print Assumptions C17_parse_any_length.
+
+(** the machine of round 5 (all earlier steps + the parse step): every step preserves the pool invariant, fails no guard, frees every
+    block exactly once; all finite histories; histories without sqrt steps need no premise on the state *)
+Theorem C17_step5_storage_ops : forall w M : Z, 2 <= w -> 8 <= M ->
+  forall gk : list Z -> list Z -> Z * bool, (forall l r : list Z, 0 <= fst (gk l r) <= len (if snd (gk l r) then r else l)) ->
+  forall (jv : list Z -> Z) (o : op5) (pool : list repr) (m : mem),
+  op5_ok w M (length pool) o -> op5_pre w o pool -> StateInv M pool m ->
+  safe (step5 w M gk jv o pool) m (fun pr m' => StateInv M (fst pr) m' /\ length (fst pr) = length pool).
+Proof. exact step5_safe. Qed.
+Print Assumptions C17_step5_storage_ops.
+
+Theorem C17_histories5_storage_ops : forall w M : Z, 2 <= w -> 8 <= M ->
+  forall gk : list Z -> list Z -> Z * bool, (forall l r : list Z, 0 <= fst (gk l r) <= len (if snd (gk l r) then r else l)) ->
+  forall (jv : list Z -> Z) (n : nat) (ops : list op5), pre_along5 w M gk jv n ops (repeat zero n) mem0 ->
+  safe (run5 w M gk jv ops (repeat zero n)) mem0
+       (fun pool m => StateInv M pool m /\ safe (drop_all pool) m (fun _ m' => forall p, blk m' p = None)).
+Proof. exact history5_safe. Qed.
+Print Assumptions C17_histories5_storage_ops.
+
+Theorem C17_histories5_static : forall w M : Z, 2 <= w -> 8 <= M ->
+  forall gk : list Z -> list Z -> Z * bool, (forall l r : list Z, 0 <= fst (gk l r) <= len (if snd (gk l r) then r else l)) ->
+  forall (jv : list Z -> Z) (n : nat) (ops : list op5), Forall (fun o => op5_ok w M n o /\ no_sqrt5 o) ops ->
+  safe (run5 w M gk jv ops (repeat zero n)) mem0
+       (fun pool m => StateInv M pool m /\ safe (drop_all pool) m (fun _ m' => forall p, blk m' p = None)).
+Proof. exact history5_static_safe. Qed.
+Print Assumptions C17_histories5_static.
+
+(** non-vacuity: the premises hold for a history through parse_word, parse_chunk, the recursion over one and two radix powers and an
+    invalid last byte, and the machine computes the parsed values *)
+Theorem C17_histories5_nonvacuous : Forall (fun o => op5_ok 64 M64 4 o /\ no_sqrt5 o) example_ops5 /\ example5_values = Some example5_expected.
+Proof. exact (conj example5_ok example5_runs). Qed.
+Print Assumptions C17_histories5_nonvacuous.
+
+(** ---- the printers in a radix that is not a power of two (fmt/non_power_two.rs), VALUE level (Int/FmtBounds5.v): every access to the
+    fixed-size arrays is in bounds, for every word base B >= 2 and every radix with rpw = radix^dpw < B <= radix * rpw
+    (max_exp_in_word).  [len] is the word count of the value ([wl]: any function that returns it). *)
+From Dashu Require Import Int.FmtBounds5 Int.FmtBounds5Proofs.
+
+(** the dispatch test `len * (digits_per_word + 1) <= CHUNK_LEN * digits_per_word` implies the bound PreparedMedium needs *)
+Theorem C17_fmt_dispatch_medium : forall B radix dpw rpw : Z, 2 <= B -> 2 <= radix -> 1 <= dpw -> rpw = radix ^ dpw -> B <= radix * rpw ->
+  forall len x : Z, 1 <= len -> 0 <= x < B ^ len -> fmt_dispatch dpw len = true -> x < rpw ^ 16.
+Proof. exact dispatch_medium. Qed.
+Print Assumptions C17_fmt_dispatch_medium.
+
+(** PreparedMedium::new below the chunk power: the words fit [Word; CHUNK_LEN], low_groups[num_low_groups] stays inside the array
+    (at most CHUNK_LEN - 1 low groups), the zero-stripping loop never reads buffer[-1], the stated fuel suffices *)
+Theorem C17_fmt_medium_in_bounds : forall B radix dpw rpw : Z, 2 <= B -> 2 <= radix -> 1 <= dpw -> rpw = radix ^ dpw -> rpw < B -> B <= radix * rpw ->
+  forall len x : Z, 0 <= x < rpw ^ 16 -> (0 < x -> B ^ (len - 1) <= x) -> (x = 0 -> len <= 1) ->
+  exists top k : Z, medium_new B rpw len x = Ok (top, k) /\ 0 <= k < gen5_fmt_low_groups_len /\ 0 <= top < B.
+Proof. exact medium_new_ok. Qed.
+Print Assumptions C17_fmt_medium_in_bounds.
+
+(** write_chunk: the copy fits and `assert_eq!(buffer_len, 0)` holds after CHUNK_LEN divisions *)
+Theorem C17_fmt_write_chunk : forall B radix dpw rpw : Z, 2 <= B -> 2 <= radix -> 1 <= dpw -> rpw = radix ^ dpw -> rpw < B -> B <= radix * rpw ->
+  forall len x : Z, 0 <= x < rpw ^ 16 -> (0 < x -> B ^ (len - 1) <= x) -> (x = 0 -> len <= 1) -> write_chunk rpw len x = Ok tt.
+Proof. exact write_chunk_ok. Qed.
+Print Assumptions C17_fmt_write_chunk.
+
+(** PreparedWord::new: `start_index -= 1` never passes 0 in an array of at least digits_per_word + 1 bytes, for every word and
+    every padding request up to digits_per_word; MAX_WORD_DIGITS_NON_POW_2 (regenerated base / increment) is that large for every
+    radix >= its base *)
+Theorem C17_fmt_prepared_word : forall B radix dpw rpw : Z, 2 <= radix -> 1 <= dpw -> rpw = radix ^ dpw -> B <= radix * rpw ->
+  forall cap min_digits word : Z, 0 <= min_digits <= dpw -> dpw + 1 <= cap -> 0 <= word < B ->
+  exists width : Z, prepared_word radix cap min_digits word = Ok width /\ min_digits <= width <= cap.
+Proof. exact prepared_word_ok. Qed.
+Print Assumptions C17_fmt_prepared_word.
+
+Theorem C17_fmt_max_word_digits : forall B radix dpw rpw : Z, 2 <= radix -> 1 <= dpw -> rpw = radix ^ dpw -> rpw < B ->
+  forall d3 : Z, gen5_max_word_digits_base <= radix -> B <= gen5_max_word_digits_base * gen5_max_word_digits_base ^ d3 -> 0 <= d3 ->
+  dpw + 1 <= d3 + gen5_max_word_digits_inc.
+Proof. exact max_word_digits_enough. Qed.
+Print Assumptions C17_fmt_max_word_digits.
+
+(** PreparedLarge::new: `2 * prev.len() - 1` does not underflow, the ladder of squares ends (fuel), the length test is sound, every
+    big chunk is below its power and the top chunk below the chunk power (PreparedMedium::new is called WITHOUT the dispatch test here) *)
+Theorem C17_fmt_large_new : forall B radix dpw rpw : Z, 2 <= B -> 2 <= radix -> 1 <= dpw -> rpw = radix ^ dpw -> rpw < B -> B <= radix * rpw ->
+  forall wl : Z -> Z, (forall x : Z, 0 <= x -> 0 <= wl x /\ (x = 0 -> wl x <= 1) /\ (0 < x -> B ^ (wl x - 1) <= x < B ^ wl x)) ->
+  forall number : Z, 0 <= number ->
+  exists (top : Z) (chunks : list (Z * Z)), large_new rpw (Z.to_nat number) wl number = Ok (top, chunks) /\ 0 <= top < rpw ^ 16 /\
+    Forall (fun pr : Z * Z => 0 <= snd pr < fst pr) chunks.
+Proof. exact large_new_ok. Qed.
+Print Assumptions C17_fmt_large_new.
+
+(** write_big_chunk: a chunk below radix_powers[i] splits into two below radix_powers[i - 1], down to write_chunk *)
+Theorem C17_fmt_write_big_chunk : forall B radix dpw rpw : Z, 2 <= B -> 2 <= radix -> 1 <= dpw -> rpw = radix ^ dpw -> rpw < B -> B <= radix * rpw ->
+  forall wl : Z -> Z, (forall x : Z, 0 <= x -> 0 <= wl x /\ (x = 0 -> wl x <= 1) /\ (0 < x -> B ^ (wl x - 1) <= x < B ^ wl x)) ->
+  forall (ps : list Z) (q x : Z), Desc rpw q ps -> 0 <= x < q -> write_big rpw wl ps x = Ok tt.
+Proof. exact write_big_ok. Qed.
+Print Assumptions C17_fmt_write_big_chunk.
+
+Theorem C17_fmt_nonvacuous : fmt_dispatch 19 15 = true /\ fmt_dispatch 19 16 = false /\
+  medium_new (2 ^ 64) (10 ^ 19) 15 (2 ^ 959) = Ok (2 ^ 959 / (10 ^ 19) ^ 15, 15) /\
+  write_chunk (10 ^ 19) 16 ((10 ^ 19) ^ 16 - 1) = Ok tt /\ prepared_word 10 41 1 (2 ^ 64 - 1) = Ok 20 /\ prepared_word 3 41 40 (2 ^ 64 - 1) = Ok 41.
+Proof. exact fmt_medium_example. Qed.
+Print Assumptions C17_fmt_nonvacuous.
